@@ -105,9 +105,14 @@ class CacheStore(object):
         hexdigest = hashlib.sha1(filename.encode('utf-8')).hexdigest()
         return os.path.join(self._directory, hexdigest)
 
-    def _cache_is_valid(self, store_filename, filename):
+    def _cache_is_valid(self, store_filename, filename, store_fd=None):
         try:
-            store_mtime = os.stat(store_filename).st_mtime
+            if store_fd is not None:
+                # Check the file that was opened, not whatever the name
+                # refers to by now.
+                store_mtime = os.fstat(store_fd.fileno()).st_mtime
+            else:
+                store_mtime = os.stat(store_filename).st_mtime
         except FileNotFoundError:
             return False
 
@@ -171,7 +176,7 @@ class CacheStore(object):
                 raise
 
         with fd:
-            if not self._cache_is_valid(store_filename, filename):
+            if not self._cache_is_valid(store_filename, filename, fd):
                 return None
             try:
                 data = pickle.load(fd)
